@@ -601,10 +601,13 @@ func (c *FnCtx) applyModifiesEnv(fr *Frame, st *State, env0 *SpecEnv, ct *FuncCo
 	for i := range ct.Modifies {
 		m := &ct.Modifies[i]
 		switch {
-		case m.Text == "*":
+		case m.Text == "*" || strings.HasPrefix(m.Text, "*!"):
 			ms := newModSet()
 			ms.all = true
-			c.havoc(st, fr, ms, "modifies *")
+			if strings.HasPrefix(m.Text, "*!") {
+				ms.except = strings.Split(strings.TrimPrefix(m.Text, "*!"), "!")
+			}
+			c.havoc(st, fr, ms, "modifies "+m.Text)
 			c.noteWholeWrite(st, "*")
 		case m.Text == "atomic(*)":
 			// every atomic location (value and ghost contribution counters)
@@ -941,7 +944,7 @@ func (c *FnCtx) buildFrameSpec(fr *Frame, st *State) {
 	for i := range ct.Modifies {
 		m := &ct.Modifies[i]
 		switch {
-		case m.Text == "*":
+		case m.Text == "*" || strings.HasPrefix(m.Text, "*!"):
 			fs.all = true
 		case m.Text == "atomic(*)":
 		case m.Expr == nil && strings.HasSuffix(m.Text, ".*"):
